@@ -8,13 +8,17 @@
    also says they never panic; for shape helpers under the validator's precondition; for element generators: one
    call of the closure moves the multi-index state exactly like the model's odometer ([incr], [incr_skip], [bstep]),
    and the statements outside the integer fragment are pinned as text in source order ([itemShape]).
-   An edit of one of these Go functions changes GoFns.v and breaks the theorem unless it computes the same thing.
+   The DATA layer (functions over `any`: float64 leaves and []any rows, recursive closures with pointer
+   parameters) is translated into DataIR programs (Model/DataIR.v, Model/GoData.v, regenerated every run); the
+   [data_*] / [drun_*] theorems say that running them returns exactly the model's nested data (Model/Data.v,
+   Model/Fill.v) and panics exactly where the model says None.
+   An edit of one of these Go functions changes GoFns.v / GoData.v and breaks the theorem unless it computes the same thing.
    Closed under the global context. *)
 From Coq Require Import String List ZArith Bool Arith.
-From Qeep Require Import Model.Nd Model.Fill Model.Valid Model.GoIR.
-From Qeep Require Model.Data Model.GoFns.
+From Qeep Require Import Model.Scalar Model.Nd Model.Fill Model.Valid Model.GoIR Model.DataIR.
+From Qeep Require Model.Data Model.Api Model.GoFns Model.GoData.
 From Qeep Require Import Proofs.GoIRP.
-From Qeep Require Proofs.GoValidAtP Proofs.GoValidP1 Proofs.GoValidP2 Proofs.GoValidP3 Proofs.GoDimsP1 Proofs.GoDimsP2 Proofs.GoGenP1 Proofs.GoGenP2 Proofs.GoGenP3.
+From Qeep Require Proofs.GoValidAtP Proofs.GoValidP1 Proofs.GoValidP2 Proofs.GoValidP3 Proofs.GoDimsP1 Proofs.GoDimsP2 Proofs.GoGenP1 Proofs.GoGenP2 Proofs.GoGenP3 Proofs.GoMatMulShapeP Proofs.DataAtP Proofs.DataSliceP Proofs.DataPatchP Proofs.DataApplyP Proofs.DataReduceP Proofs.DataFillP Proofs.DataLinalgP Proofs.DataConcatP.
 Import ListNotations.
 Local Open Scope string_scope.
 
@@ -344,3 +348,187 @@ Theorem eyeElemGenerator_step_is_eyeGen :
     (forall y : string, y <> "state" -> y <> "atDiag" -> lookup e' y = lookup e y).
 Proof. exact @GoGenP1.go_eyeElemGenerator_step_env. Qed.
 Print Assumptions eyeElemGenerator_step_is_eyeGen.
+
+Theorem dataAt_program_is_dataAt :
+  forall (A : Type) (SA : Scalar A) (fapp : string -> list A -> option A) (St : Type)
+    (ext : string -> list dval -> St -> option (list dval * St))
+    (callL : string -> list dval -> St -> denv -> cres St) (fuel : nat) (ds : dval) 
+    (x : nd A) (idx : list nat) (s : St),
+  match dataAt x idx with
+  | Some y =>
+      exists g l : denv,
+        dexec fapp St ext callL fuel true (dbody (pmain GoData.d_dataAt)) s
+          [("t.dims", ds); ("t.data", emb x); ("index", dnats idx)] [] = DRet St [emb y] s g l
+  | None =>
+      dexec fapp St ext callL fuel true (dbody (pmain GoData.d_dataAt)) s
+        [("t.dims", ds); ("t.data", emb x); ("index", dnats idx)] [] = DPanic St
+  end.
+Proof. exact @DataAtP.data_dataAt. Qed.
+Print Assumptions dataAt_program_is_dataAt.
+
+Theorem copiedSliceOf_program_is_copiedSliceOf :
+  forall (A : Type) (SA : Scalar A) (fapp : string -> list A -> option A) (St : Type)
+    (ext : string -> list dval -> St -> option (list dval * St)) (fuel depth : nat) 
+    (ds : list nat) (x : nd A) (index : list (nat * nat)) (s : St),
+  Forall (fun r : nat * nat => fst r <= snd r) index ->
+  Datatypes.length index < depth ->
+  match Data.copiedSliceOf {| dims := ds; data := x |} index with
+  | Some o =>
+      exists g l : denv,
+        drun fapp St ext GoData.d_copiedSliceOf fuel depth [dnats ds; emb x; dranges index] s =
+        DRet St [dnats (dims o); emb (data o)] s g l
+  | None =>
+      drun fapp St ext GoData.d_copiedSliceOf fuel depth [dnats ds; emb x; dranges index] s = DPanic St
+  end.
+Proof. exact @DataSliceP.data_copiedSliceOf. Qed.
+Print Assumptions copiedSliceOf_program_is_copiedSliceOf.
+
+Theorem copyData_slice_closure :
+  forall (A : Type) (SA : Scalar A) (fapp : string -> list A -> option A) (St : Type)
+    (ext : string -> list dval -> St -> option (list dval * St)) (fuel : nat) 
+    (index : list (nat * nat)),
+  Forall (fun r : nat * nat => fst r <= snd r) index ->
+  forall (d : nat) (src : nd A) (v : dval) (s : St) (g : denv),
+  Datatypes.length index <= d ->
+  callLD fapp St ext (plocals GoData.d_copiedSliceOf) fuel (S d) "copyData" [
+    dranges index; emb src; v] s g =
+  match Data.sliceData index src with
+  | Some r => CRet St [emb src; emb r] s g
+  | None => CPanic St
+  end.
+Proof. exact @DataSliceP.copyData_sliceData. Qed.
+Print Assumptions copyData_slice_closure.
+
+Theorem copiedWithPatchOf_program_is_patch_body :
+  forall (A : Type) (SA : Scalar A) (fapp : string -> list A -> option A) (St : Type)
+    (ext : string -> list dval -> St -> option (list dval * St)) (t u : tensor A)
+    (cidx : list (nat * nat)) (fuel depth : nat) (s : St),
+  ext "slice" [dnats (dims t); emb (data t); DL []] s =
+  match Data.slice t [] with
+  | Some o => Some ([dnats (dims o); emb (data o)], s)
+  | None => None
+  end ->
+  Datatypes.length cidx < depth ->
+  match
+    (do o <- Data.slice t [];
+     do d <- Data.patchData cidx (data u) (data o); Some {| dims := dims o; data := d |})
+  with
+  | Some o' =>
+      exists g l : denv,
+        drun fapp St ext GoData.d_copiedWithPatchOf fuel depth
+          [dnats (dims t); emb (data t); dranges cidx; dnats (dims u); emb (data u)] s =
+        DRet St [dnats (dims o'); emb (data o')] s g l
+  | None =>
+      drun fapp St ext GoData.d_copiedWithPatchOf fuel depth
+        [dnats (dims t); emb (data t); dranges cidx; dnats (dims u); emb (data u)] s = 
+      DPanic St
+  end.
+Proof. exact @DataPatchP.data_copiedWithPatchOf. Qed.
+Print Assumptions copiedWithPatchOf_program_is_patch_body.
+
+Theorem patch_program_is_patch :
+  forall (A : Type) (SA : Scalar A) (fapp : string -> list A -> option A) (St : Type)
+    (ext : string -> list dval -> St -> option (list dval * St)) (t u : tensor A)
+    (index : list (nat * nat)) (fuel depth : nat) (s : St),
+  ext "slice" [dnats (dims t); emb (data t); DL []] s =
+  match Data.slice t [] with
+  | Some o => Some ([dnats (dims o); emb (data o)], s)
+  | None => None
+  end ->
+  Datatypes.length (dims u) < depth ->
+  match Data.patch t index u with
+  | Some o' =>
+      exists g l : denv,
+        drun fapp St ext GoData.d_copiedWithPatchOf fuel depth
+          [dnats (dims t); emb (data t); dranges (Data.completeIndex index (dims u)); 
+           dnats (dims u); emb (data u)] s = DRet St [dnats (dims o'); emb (data o')] s g l
+  | None =>
+      drun fapp St ext GoData.d_copiedWithPatchOf fuel depth
+        [dnats (dims t); emb (data t); dranges (Data.completeIndex index (dims u)); 
+         dnats (dims u); emb (data u)] s = DPanic St
+  end.
+Proof. exact @DataPatchP.data_patch. Qed.
+Print Assumptions patch_program_is_patch.
+
+Theorem copyData_patch_closure :
+  forall (A : Type) (SA : Scalar A) (fapp : string -> list A -> option A) (St : Type)
+    (ext : string -> list dval -> St -> option (list dval * St)) (index : list (nat * nat))
+    (src dst : nd A) (d fuel : nat) (s : St) (g : denv),
+  Datatypes.length index <= d ->
+  callLD fapp St ext (plocals GoData.d_copiedWithPatchOf) fuel (S d) "copyData"
+    [dranges index; emb src; emb dst] s g =
+  match Data.patchData index src dst with
+  | Some r => CRet St [emb src; emb r] s g
+  | None => CPanic St
+  end.
+Proof. exact @DataPatchP.copyData_patchData. Qed.
+Print Assumptions copyData_patch_closure.
+
+Theorem initWith_program_is_fill :
+  forall (A : Type) (SA : Scalar A) (fapp : string -> list A -> option A) (G : Type)
+    (gen : G -> option (nd A * G)) (ext : string -> list dval -> G -> option (list dval * G)),
+  (forall s : G,
+   ext "initFunc" [] s = match gen s with
+                         | Some (e, s') => Some ([emb e], s')
+                         | None => None
+                         end) ->
+  forall (fuel depth : nat) (ds : list nat) (v0 : dval) (s : G),
+  Datatypes.length ds < depth ->
+  drun fapp G ext GoData.d_initWith fuel depth [dnats ds; v0] s =
+  match fill ds gen s with
+  | Some (r, s') => DNormal G s' [("t.dims", dnats ds); ("t.data", emb r)] []
+  | None => DPanic G
+  end.
+Proof. exact @DataFillP.data_initWith_run. Qed.
+Print Assumptions initWith_program_is_fill.
+
+Theorem fill_closure :
+  forall (A : Type) (SA : Scalar A) (fapp : string -> list A -> option A) (G : Type)
+    (gen : G -> option (nd A * G)) (ext : string -> list dval -> G -> option (list dval * G)),
+  (forall s : G,
+   ext "initFunc" [] s = match gen s with
+                         | Some (e, s') => Some ([emb e], s')
+                         | None => None
+                         end) ->
+  forall (ds : list nat) (d fuel : nat) (v : dval) (s : G) (g : denv),
+  Datatypes.length ds <= d ->
+  callLD fapp G ext (plocals GoData.d_initWith) fuel (S d) "fill" [dnats ds; v] s g =
+  match fill ds gen s with
+  | Some (x, s') => CRet G [emb x] s' g
+  | None => CPanic G
+  end.
+Proof. exact @DataFillP.fill_closure. Qed.
+Print Assumptions fill_closure.
+
+Theorem initConcatResultTensor_program_is_concatD :
+  forall (A : Type) (SA : Scalar A) (fapp : string -> list A -> option A) (St : Type)
+    (ext : string -> list dval -> St -> option (list dval * St)) (dim : nat),
+  (forall (t c : tensor A) (s : St),
+   Data.slice t [] = Some c ->
+   ext "slice" [DataConcatP.etensor t; DL []] s = Some ([DataConcatP.etensor c], s)) ->
+  (forall (ts : list (tensor A)) (dm : nat) (r : list nat) (s : St),
+   Data.getConcatDims ts dm = Some r ->
+   ext "getConcatDims" [DataConcatP.etensors ts; DI (Z.of_nat dm)] s = Some ([dnats r], s)) ->
+  forall (ts : list (tensor A)) (ds : list nat) (r : nd A) (fuel depth : nat) (s : St),
+  dim < depth ->
+  Data.concatD ts dim = Some {| dims := ds; data := r |} ->
+  exists g l : denv,
+    drun fapp St ext GoData.d_initConcatResultTensor fuel depth
+      [DataConcatP.etensors ts; DI (Z.of_nat dim)] s = DRet St [dnats ds; emb r] s g l.
+Proof. exact @DataConcatP.drun_initConcatResultTensor. Qed.
+Print Assumptions initConcatResultTensor_program_is_concatD.
+
+Theorem fillCat_closure :
+  forall (A : Type) (SA : Scalar A) (fapp : string -> list A -> option A) (St : Type)
+    (ext : string -> list dval -> St -> option (list dval * St)) (dim k : nat) 
+    (ds : list nat) (seeds : list (nd A)) (r : nd A) (depth0 : nat) (dv : dval) 
+    (d fuel : nat) (s : St) (g : denv),
+  depth0 + k = dim ->
+  k < Datatypes.length ds ->
+  k <= d ->
+  dlookup g "dim" = Some (DI (Z.of_nat dim)) ->
+  Data.fillCat k ds seeds = Some r ->
+  callLD fapp St ext (plocals GoData.d_initConcatResultTensor) fuel (S d) "fillCat"
+    [dnats ds; dv; DL (map emb seeds); DI (Z.of_nat depth0)] s g = CRet St [emb r] s g.
+Proof. exact @DataConcatP.fillCat_call. Qed.
+Print Assumptions fillCat_closure.
